@@ -88,6 +88,7 @@ type child struct {
 	nextRid   uint32
 	dead      bool // the transport has been failed by the script
 	deadline  bool // the session context carries a deadline
+	noisy     bool // the process burnt CPU before this script's session existed
 	wfailed   bool // a WriteFcall has failed on this session (connection healthy)
 	broken    bool // an oracle failed in a way that makes the rest of the script meaningless
 }
@@ -294,6 +295,85 @@ func (c *child) stall(mtA, mtB, mtC uint8) {
 		c.awaiting[x.f.Tag] = x.p.C
 		c.tagOf[x.p.C] = x.f.Tag
 		c.issued[x.f.Tag] = true
+	}
+}
+
+// deadlineThenPlain: a call whose context has a deadline completes in time; the
+// deadline passes; then a call with context.Background() must go through: no
+// per-call deadline may stay behind on the connection.
+func (c *child) deadlineThenPlain(mtA, mtB uint8) {
+	const dl = 400 * time.Millisecond
+	idA := c.nextCall
+	c.nextCall++
+	ctxA, cancelA := context.WithTimeout(context.Background(), dl)
+	start := time.Now()
+	pA := peer.StartCtx(ctxA, cancelA, c.sess, mtA, idA)
+	f, err := c.peer.NextFrame()
+	if err != nil {
+		if ctxA.Err() != nil {
+			c.emit("X", "the deadline passed before the call's frame arrived")
+		} else {
+			c.fail("transport.handle:no-frame", fmt.Sprintf("call %d: %v", idA, err))
+		}
+		c.broken = true
+		return
+	}
+	if f.Fid != idA || f.Type != mtA {
+		c.fail("transport.handle:wrong-frame", fmt.Sprintf("expected the frame of call %d type %d, got fid %d type %d", idA, mtA, f.Fid, f.Type))
+		c.broken = true
+		return
+	}
+	c.awaiting[f.Tag], c.tagOf[idA], c.issued[f.Tag] = idA, f.Tag, true
+	c.ev(sx.L(sx.Sym("req"), sx.U(uint64(idA)), sx.U(uint64(mtA)), sx.I(1)))
+	c.obs(sx.L(sx.Sym("f"), sx.U(uint64(f.Tag))))
+	rid := c.nextRid
+	c.nextRid++
+	c.ev(sx.L(sx.Sym("resp"), sx.U(uint64(f.Tag)), sx.U(uint64(mtA+1)), sx.U(uint64(rid))))
+	if !c.send(peer.Reply(f.Tag, mtA+1, rid)) {
+		return
+	}
+	delete(c.awaiting, f.Tag)
+	c.answered = append(c.answered, f.Tag)
+	resA, ok := pA.Await()
+	if !ok {
+		c.fail("transport.send:no-return", fmt.Sprintf("call %d (context with a deadline) did not return", idA))
+		c.broken = true
+		return
+	}
+	if resA.Class == "ctx" {
+		c.emit("X", "the machine was too slow to answer within the call's deadline")
+		c.broken = true
+		return
+	}
+	c.obs(sx.L(sx.Sym("d"), sx.U(uint64(idA)), resA.Sexp()))
+	want := rid
+	if !peer.HasPayload(mtA) {
+		want = 0
+	}
+	if resA.Class != "ok" || resA.ID != want {
+		c.fail("transport.handle:call-disturbed", fmt.Sprintf("call %d (context with a deadline, answered in time) returned %s %d %q", idA, resA.Class, resA.ID, resA.Text))
+	}
+	// let the deadline pass (a longer sleep only makes the point stronger)
+	time.Sleep(time.Until(start.Add(dl + 150*time.Millisecond)))
+	idB := c.nextCall
+	c.nextCall++
+	pB := peer.Start(context.Background(), c.sess, mtB, idB, false)
+	fB, resB, err := c.peer.NextFrameOrReturn(pB)
+	switch {
+	case err != nil:
+		c.fail("transport.handle:no-frame", fmt.Sprintf("call %d: %v", idB, err))
+		c.broken = true
+	case resB != nil:
+		c.fail("channel.WriteFcall:stale-deadline", fmt.Sprintf("call %d was made with context.Background() on a healthy connection %v after call %d, whose context had a %v deadline, had completed; it returned %s %q without its request reaching the peer: the earlier call's deadline was left on the connection", idB, time.Since(start).Round(time.Millisecond), idA, dl, resB.Class, resB.Text))
+		c.broken = true
+	case fB.Fid != idB || fB.Type != mtB:
+		c.fail("transport.handle:wrong-frame", fmt.Sprintf("expected the frame of call %d type %d, got fid %d type %d", idB, mtB, fB.Fid, fB.Type))
+		c.broken = true
+	default:
+		c.live[idB] = pB
+		c.awaiting[fB.Tag], c.tagOf[idB], c.issued[fB.Tag] = idB, fB.Tag, true
+		c.ev(sx.L(sx.Sym("req"), sx.U(uint64(idB)), sx.U(uint64(mtB)), sx.I(1)))
+		c.obs(sx.L(sx.Sym("f"), sx.U(uint64(fB.Tag))))
 	}
 }
 
@@ -508,13 +588,31 @@ func cpuTime() time.Duration {
 // (almost) no CPU; a goroutine spinning on an error it keeps retrying uses
 // about one CPU.  A loaded machine can only lower what a spinner gets.
 func (c *child) atRest() {
+	if c.noisy {
+		return // the process was already busy before this session existed: the measurement would say nothing
+	}
 	time.Sleep(150 * time.Millisecond)
-	const window = 500 * time.Millisecond
+	const window = 400 * time.Millisecond
+	// a spinner burns CPU in every window; garbage collection or the tail of an
+	// earlier script's goroutines does not keep it up for three in a row
+	var used [3]time.Duration
+	for i := range used {
+		c0 := cpuTime()
+		time.Sleep(window)
+		used[i] = cpuTime() - c0
+		if used[i] <= window/2 {
+			return
+		}
+	}
+	c.fail("transport.handle:reader-spins-after-ctx-deadline", fmt.Sprintf("the session context's deadline has passed, every call has returned, the script is idle (and the process was idle before this session was set up), yet the client process burnt %v, %v and %v of CPU in three consecutive windows of %v: a goroutine of the client retries an error that will never go away", used[0], used[1], used[2], window))
+}
+
+// quietBefore measures the process while nothing of this script exists yet.
+func quietBefore() bool {
+	const window = 250 * time.Millisecond
 	c0 := cpuTime()
 	time.Sleep(window)
-	if used := cpuTime() - c0; used > window/2 {
-		c.fail("transport.handle:reader-spins-after-ctx-deadline", fmt.Sprintf("the session context's deadline has passed, every call has returned, the script is idle, yet the client process burnt %v of CPU in %v: a goroutine of the client retries an error that will never go away", used, window))
-	}
+	return cpuTime()-c0 < window/8
 }
 
 // late: calls started after (or while) the transport fails must return an error.
@@ -608,6 +706,7 @@ func runScript(out *bufio.Writer, s script) {
 		}
 	}()
 	if s.Deadline > 0 {
+		c.noisy = !quietBefore()
 		c.stop()
 		c.ctx, c.stop = context.WithTimeout(context.Background(), time.Duration(s.Deadline)*time.Millisecond)
 		c.deadline = true
@@ -642,6 +741,8 @@ func runScript(out *bufio.Writer, s script) {
 			c.failedWrite()
 		case "stall":
 			c.stall(st.MT, st.Ty, uint8(st.N))
+		case "dlcall":
+			c.deadlineThenPlain(st.MT, st.Ty)
 		case "fail":
 			g, _ := hex.DecodeString(st.Bytes)
 			c.failTransport(st.How, g)
@@ -815,8 +916,14 @@ func genHandshake(rng *prng.R, i int) script {
 	return s
 }
 
-func genScript(rng *prng.R, i int, decoderDefects bool, deadline bool) script {
+func genScript(rng *prng.R, i int, decoderDefects bool, deadline bool, dlcall bool) script {
 	var st []step
+	dlLive := 0
+	if dlcall {
+		// a call under a context deadline, the deadline passes, then a call without one
+		st = append(st, step{Op: "dlcall", MT: peer.Methods[rng.Intn(len(peer.Methods))], Ty: peer.Methods[rng.Intn(len(peer.Methods))]})
+		dlLive = 1
+	}
 	if deadline {
 		// the session context carries a deadline which passes with 0..4 calls pending
 		for k := rng.Intn(5); k > 0; k-- {
@@ -829,7 +936,7 @@ func genScript(rng *prng.R, i int, decoderDefects bool, deadline bool) script {
 	stalls := 0
 	pend := rng.Pick(0, 0, 1, 1, 2, 3, 4, 6, 8, 12, 16)
 	nsteps := rng.Range(0, 25)
-	live := 0
+	live := dlLive
 	for k := 0; k < nsteps; k++ {
 		x := rng.Intn(100)
 		switch {
@@ -933,7 +1040,8 @@ func main() {
 		n = r.N(30, 800)
 	}
 	scripts := make([]script, n)
-	every := n / r.N(6, 40) // this many scripts let a session-context deadline pass (each costs ~1.3 s of waiting)
+	everyDL := n / r.N(8, 60) // this many scripts begin with a call under a context deadline that is then let pass (~0.6 s each)
+	every := n / r.N(6, 40)   // this many scripts let a session-context deadline pass (each costs ~1.3 s of waiting)
 	file := r.Out + "/scripts.jsonl"
 	f, err := os.Create(file)
 	if err != nil {
@@ -944,7 +1052,7 @@ func main() {
 		if i%10 == 7 {
 			scripts[i] = genHandshake(rng.Fork(), i)
 		} else {
-			scripts[i] = genScript(rng.Fork(), i, *decoderDefects, i%every == 3)
+			scripts[i] = genScript(rng.Fork(), i, *decoderDefects, i%every == 3, i%everyDL == 5 && i%every != 3)
 		}
 		b, _ := json.Marshal(scripts[i])
 		w.Write(b)
@@ -1106,7 +1214,7 @@ func main() {
 		nt := false
 		label := "nofail"
 		for _, st := range scripts[i].Steps {
-			if st.Op == "stray" || st.Op == "stall" || st.Op == "wfail" || (st.Op == "reply" && st.Kind >= 2) {
+			if st.Op == "stray" || st.Op == "stall" || st.Op == "dlcall" || st.Op == "wfail" || (st.Op == "reply" && st.Kind >= 2) {
 				nt = true
 			}
 			if st.Op == "fail" {
